@@ -610,15 +610,15 @@ fn c01_find_static_huge_rate_loop_unbounded() {
 }
 
 include!(concat!(env!("KV_HARNESS_DIR"), "/lib/libm.rs"));
-// @h prop=C01 tier=quick kind=finding:F6 timeout=600
-// @bounds a silent frame played at a finite but absurd volume (+1000 dB): the amplitude overflows to +inf and inf * 0 is NaN
+// @h prop=C01,C19 tier=quick kind=main timeout=600
+// @bounds a silent frame played at a finite but absurd volume (+1000 dB): the amplitude must not overflow to +inf (inf * 0 is NaN)
 // @funcs StaticSound::process, Decibels::as_amplitude
 // @assume powf contract stub (10^50 may be +inf, as it is natively in f32)
-// @catches (finding F6) NaN written to the output for finite arguments
+// @catches F6 (fixed by 66fc0a0): NaN written to the output for finite arguments
 #[kani::proof]
 #[kani::unwind(6)]
 #[kani::stub(f32::powf, kv_powf32)]
-fn c01_find_huge_volume_on_silence_is_nan() {
+fn c01_huge_volume_on_silence_is_not_nan() {
 	let a = KvArenas::empty();
 	let info = a.info();
 	let data = StaticSoundData { sample_rate: 1, frames: vec![Frame::ZERO; 4].into(), settings: StaticSoundSettings::new().volume(Decibels(1000.0)), slice: None };
